@@ -1,2 +1,4 @@
 pub mod outstation;
 pub mod peer;
+pub mod net;
+pub mod master;
